@@ -2145,6 +2145,10 @@ func (d *Data) SendBlocks(ctx *datastore.VersionedCtx, w http.ResponseWriter, su
 		return nil
 	}
 
+	if err := dvid.CheckBlockRowScans(int64(blocksize.Value(1)), int64(blocksize.Value(2))); err != nil {
+		return err
+	}
+
 	// only do one request at a time, although each request can start many goroutines.
 	if subvol.NumVoxels() > 256*256*256 {
 		server.LargeMutationMutex.Lock()
